@@ -79,6 +79,40 @@ theorem c09_sync_retires (S : SyncSpec) (st : S.σ) (v : View) (hne : v.ins ≠ 
       simp [firstIdx, List.findIdx?_cons, this]
   exact (syncWork_waitIn S st v 0 this).2.1
 
+/-- Sync family, `eof()` is sound: when the derived `eof()` answers true (every input ended and drained) a
+further call changes nothing — no state change, nothing consumed, nothing delivered on any output. Retiring any
+block built with the `sync` macro on that answer loses nothing (the hypothesis of `c05_retire_all_is_reference`). -/
+theorem c09_sync_eof_sound (S : SyncSpec) (st : S.σ) (v : View) (hne : v.ins ≠ [])
+    (h : macroEof v = true) :
+    (syncWork S st v).1 = st ∧ (∀ c ∈ (syncWork S st v).2.consumed, c = 0) ∧
+    (∀ p ∈ (syncWork S st v).2.produced, p.samples = []) := by
+  have hall := (macroEof_iff v).mp h
+  have hk : firstIdx v.ins (fun i => i.samples.isEmpty) = some 0 := by
+    cases hv : v.ins with
+    | nil => exact absurd hv hne
+    | cons a t =>
+      have := (hall a (by simp [hv])).2
+      simp [firstIdx, List.findIdx?_cons, this]
+  refine ⟨(syncWork_waitIn S st v 0 hk).1, (syncWork_waitIn S st v 0 hk).2.2.1, ?_⟩
+  unfold syncWork
+  simp only [hk]
+  intro p hp
+  simp only [List.mem_map] at hp
+  obtain ⟨_, _, rfl⟩ := hp
+  rfl
+
+/-- The same for Skip, RationalResampler and the gated transducers (ZeroCrossing, SymbolSync; any arity of
+outputs, any state): on an ended, drained input a further call delivers nothing. -/
+theorem c09_eof_sound_hand (k f i d : Nat) (c : Int) (G : Gated) (gst : G.σ) (ts : List Tag) (outs : List OutView) :
+    ((skipWork k ⟨[⟨[], ts, false⟩], [⟨f, true⟩]⟩).2.produced.getD 0 ⟨[], []⟩).samples = [] ∧
+    (((resBlockRaw i d).work c ⟨[⟨[], ts, false⟩], [⟨f, true⟩]⟩).2.produced.getD 0 ⟨[], []⟩).samples = [] ∧
+    (∀ p ∈ (gatedWork G gst ⟨[⟨[], ts, false⟩], outs⟩).2.produced, p.samples = []) := by
+  refine ⟨by simp [skipWork, in0, noOut], by simp [resBlockRaw, resWork, in0, noOut], ?_⟩
+  intro p hp
+  simp [gatedWork, in0, noOut] at hp
+  obtain ⟨_, _, rfl⟩ := hp
+  rfl
+
 /-- Skip: verdicts on an arbitrary single-stream view. -/
 theorem c09_skip (skip : Nat) (w : List Nat) (ts : List Tag) (f : Nat) :
     let r := skipWork skip ⟨[⟨w, ts, true⟩], [⟨f, true⟩]⟩
